@@ -173,6 +173,26 @@ pub fn run(args: &Args, rep: &Arc<Report>) {
             }
         });
         rep.extra("long_stream_cases", json!(n));
+        // the empty input and inputs of at most one block through every delivery (length hints of 0, exact,
+        // rounded up / down, absent): two coordinates away from every base point, so outside U_1
+        let mut shorts: Vec<Case> = Vec::new();
+        for b in 0..universe::base_points().len() {
+            for delivery in 0..6u8 {
+                for (full, tail) in [(0u32, 0u32), (0, 1), (0, 17), (1, 0)] {
+                    let mut c = universe::decode(&universe::base_points()[b]);
+                    c.input.delivery = delivery;
+                    c.input.full = full;
+                    c.input.tail = tail;
+                    shorts.push(c);
+                }
+            }
+        }
+        let ns = shorts.len();
+        par_for(rep, ns, Duration::from_secs(600), |i| shorts[i].json(), |i, local| {
+            local.set_current(&shorts[i]);
+            check_case(rep, &shorts[i], &["short".to_string()], local, &[1, 2, 3], 2);
+        });
+        rep.extra("short_input_cases", json!(ns));
         // worker count taken from the environment override (config.workers = None): values loom
         // cannot host (more than 3 workers) and unusual spellings; serial phase, no other thread
         // of the harness is running while the variable changes
@@ -196,5 +216,5 @@ pub fn run(args: &Args, rep: &Arc<Report>) {
         rep.merge(local);
         rep.extra("environment_override_values", json!(envs));
     }
-    rep.add_rule("breadth part (real threads, one OS schedule per encode; supplementary to the loom/stateright exploration): for every case, single-thread bytes == frame-level assembly == multi-thread bytes for workers {1,2,3,16}, each multi-thread encode repeated twice; long streams (200 blocks of 32/64 samples + tail, cheap content, workers {2,4,16,64}, 10/40 repetitions) so that the hashing queue can fill; the environment override FLACENC_WORKERS over {1,4,5,16,100,300,+2,\" 3\",-1,0,\"\",two,2^64-1,2^64, unset} with config.workers = None; non-trivial = at least two frames");
+    rep.add_rule("breadth part (real threads, one OS schedule per encode; supplementary to the loom/stateright exploration): for every case, single-thread bytes == frame-level assembly == multi-thread bytes for workers {1,2,3,16}, each multi-thread encode repeated twice; long streams (200 blocks of 32/64 samples + tail, cheap content, workers {2,4,16,64}, 10/40 repetitions) so that the hashing queue can fill; the empty input and inputs of at most one block x six deliveries x six base points; the environment override FLACENC_WORKERS over {1,4,5,16,100,300,+2,\" 3\",-1,0,\"\",two,2^64-1,2^64, unset} with config.workers = None; non-trivial = at least two frames");
 }
